@@ -204,6 +204,21 @@ func (c *checker) liveOverlay(v *preconfirmed.ChainReader, entries []*pending.Pr
 	}
 	tag := []string{"legacy", "newstate"}[nb]
 	vis := map[felt.Felt]core.ClassDefinition{}
+	// The definitions of the classes a slot declares are fetched by the poller when it re-polls / backfills the slot, i.e.
+	// for every slot except the newest one (whose classes arrive with its next poll). Independently of what the
+	// implementation registered: every class declared by the state diff of a slot BELOW the view's tip must have its
+	// definition on that slot (otherwise Class(hash) through the view falls back to the canonical base = not found).
+	for j, e := range entries {
+		if j == len(entries)-1 || e.StateUpdate == nil || e.StateUpdate.StateDiff == nil {
+			continue
+		}
+		for h := range e.StateUpdate.StateDiff.DeclaredV1Classes {
+			if _, ok := e.NewClasses[h]; !ok {
+				viol("class declared by a slot below the tip has no definition on the view", map[string]any{"block": e.Block.Number, "class": h.String(),
+					"slot_identifier": e.BlockIdentifier, "slots_in_view": len(entries)})
+			}
+		}
+	}
 	for _, e := range entries {
 		sq := core.EmptyStateDiff()
 		for _, tx := range e.Block.Transactions {
